@@ -283,27 +283,33 @@ def show_place(fn, pl, depth=0):
         ds = fn.defs().get(base, [])
         # matches!()/&&/|| temporaries: several constant bool assignments, one per arm
         if ds and fn.locals[base]['ty'] == 'bool' and not proj and not _mut_borrowed(fn, base) and (not fn.locals[base]['name'] or not _loop_carried(fn, base, ds)):
-            arms = []
+            arms, farms = [], []
             for d in ds:
                 if fn.blocks[d[0]]['cleanup']:
                     continue
                 if depth >= 6:
                     arms.append('_')
+                    farms.append('_')
                     continue
                 g = direct_guards(fn, d[0], depth + 3, variants=False)
                 if d[2] == 'assign' and d[3]['rv']['k'] == 'use' and d[3]['rv']['op']['k'] == 'const':
-                    if const_name(d[3]['rv']['op']) == 'true':
-                        arms.append(' & '.join(g))
+                    (arms if const_name(d[3]['rv']['op']) == 'true' else farms).append(' & '.join(g))
                 elif d[2] == 'assign' and d[3]['rv']['k'] == 'use':
-                    arms.append(' & '.join(g + [show_operand(fn, d[3]['rv']['op'], depth + 3) + ' not in [0]']))
+                    v = show_operand(fn, d[3]['rv']['op'], depth + 3)
+                    arms.append(' & '.join(g + [v + ' not in [0]']))
+                    farms.append(' & '.join(g + [v + ' in [0]']))
                 elif d[2] == 'call':
                     t = d[3]
-                    arms.append(' & '.join(g + ['%s(%s) not in [0]' % (short(callee_name(t)) or 'indirect', ','.join(show_operand(fn, a, depth + 3) for a in t['args']))]))
+                    v = '%s(%s)' % (short(callee_name(t)) or 'indirect', ','.join(show_operand(fn, a, depth + 3) for a in t['args']))
+                    arms.append(' & '.join(g + [v + ' not in [0]']))
+                    farms.append(' & '.join(g + [v + ' in [0]']))
                 else:
                     arms = None
                     break
             if arms is not None:
-                return 'true-when{%s}' % ' | '.join(sorted(arms))
+                txt = 'true-when{%s}' % ' | '.join(sorted(arms))
+                fn.__dict__.setdefault('_falsewhen', {})[txt] = 'false-when{%s}' % ' | '.join(sorted(farms))
+                return txt
         if ds and fn.locals[base]['name']:
             return 'var:%s%s' % (fn.locals[base]['ty'], proj)
         return '_%d%s' % (base, proj)
@@ -361,6 +367,34 @@ def _split2(body):
     return None
 
 
+def split_top(s, sep):
+    """Split s at occurrences of sep that are not nested in (), [] or {}."""
+    out, depth, cur, i = [], 0, '', 0
+    while i < len(s):
+        if depth == 0 and s.startswith(sep, i):
+            out.append(cur)
+            cur = ''
+            i += len(sep)
+            continue
+        ch = s[i]
+        if ch in '([{':
+            depth += 1
+        elif ch in ')]}':
+            depth -= 1
+        cur += ch
+        i += 1
+    out.append(cur)
+    return out
+
+
+def computed_bool_arms(g):
+    """For a guard `true-when{A & B | C} not in [0]` / `false-when{..} not in [0]`: [[A, B], [C]]; else None."""
+    m = re.match(r'^(?:true|false)-when\{(.*)\} not in \[0\]$', g)
+    if not m:
+        return None
+    return [split_top(arm, ' & ') for arm in split_top(m.group(1), ' | ')]
+
+
 def guard_variants(g):
     """Equivalent spellings of a branch condition: `a >= b` taken is `a < b` not taken is `b <= a` taken ...  Rules match
     guards with patterns; returning every spelling keeps them independent of how the source happened to write a test."""
@@ -401,10 +435,16 @@ def guard_variants(g):
     return seen
 
 
-def _expand(gs):
+def _expand(gs, fn=None):
     out = []
+    fw = fn.__dict__.get('_falsewhen', {}) if fn is not None else {}
     for g in gs:
         for v in guard_variants(g):
+            if v not in out:
+                out.append(v)
+        # a computed boolean that is false: the conditions under which it was assigned false
+        if g.startswith('true-when{') and g.endswith('} in [0]') and g[:-len(' in [0]')] in fw:
+            v = fw[g[:-len(' in [0]')]] + ' not in [0]'
             if v not in out:
                 out.append(v)
     return out
@@ -417,7 +457,7 @@ def direct_guards(fn, b, depth=0, variants=True):
         e = explain_edge(fn, p, s, depth)
         if e:
             out.append(e)
-    return _expand(out) if variants else out
+    return _expand(out, fn) if variants else out
 
 
 def all_guards(fn, b):
@@ -426,7 +466,7 @@ def all_guards(fn, b):
         e = explain_edge(fn, p, s)
         if e:
             out.append(e)
-    return _expand(out)
+    return _expand(out, fn)
 
 
 def dom_guards(fn, b, variants=True):
@@ -440,7 +480,7 @@ def dom_guards(fn, b, variants=True):
         e = explain_edge(fn, preds[0], s)
         if e:
             out.append(e)
-    return _expand(out) if variants else out
+    return _expand(out, fn) if variants else out
 
 
 def guards_equiv(got_raw, want):
